@@ -56,7 +56,8 @@ Spellings ==
       <<1, 0, ":", ";", FALSE, FALSE, FALSE, FALSE>>,           \* all constructor forms, ":" and ";"
       <<2, 1, "=>", "nl", TRUE, TRUE, TRUE, FALSE>>,            \* mixed per node, comments, parentheses, line breaks
       <<2, 2, "mix", ";", TRUE, FALSE, TRUE, FALSE>>,
-      <<2, 3, "=", "nl", FALSE, TRUE, FALSE, TRUE>> }           \* bare expression instead of start = ...
+      <<2, 3, "=", "nl", FALSE, TRUE, FALSE, TRUE>>,            \* bare expression instead of start = ...
+      <<0, 4, "=", ";", FALSE, FALSE, FALSE, TRUE>> }           \* bare expression terminated by ";"
 
 (* chains: operands with optional postfix, operators of every level *)
 Wrap == Py(<<"lam", "wrap", <<"k", <<"none">>>>>>)            \* `lambda v_: [v_]`
@@ -82,7 +83,14 @@ Init ==
 
 Expr == IF part = "spell" THEN Shape(rec) ELSE Group(ch)
 
-G == [rules |-> [start |-> Rule(Expr), R |-> Rule(Ch2(Str(<<b, a>>), B1))], ign |-> <<>>, start |-> "start"]
+\* besides the expression under test: a class (fields, a let field), a let expression, a parameterised rule and its call -
+\* every place where a definition sign ( = : => ) is written
+G == [rules |-> [start |-> Rule(Expr), R |-> Rule(Ch2(Str(<<b, a>>), B1)),
+                 K |-> Class(<<Field("x", A1), LetF("m", Opt(B1)), Field("y", Cm)>>),
+                 L |-> Rule(Let("q", A1, Seq2(B1, PyVar("q")))),
+                 T |-> RuleP(<<"p">>, Seq2(Ref("p"), Opt(Ref("p")))),
+                 U |-> Rule(Call("T", <<Pos(A1)>>))],
+      ign |-> <<>>, start |-> "start"]
 
 Texts == TextSeqUpTo(<<a, b, comma>>, IF Tier = "quick" THEN 4 ELSE 5)
 
@@ -95,7 +103,7 @@ Cfg == IF part = "spell"
 Step == /\ ~done
         /\ done' = TRUE
         /\ UNCHANGED <<part, rec, sp, ch>>
-        /\ EmitCase(G, Cfg, <<"start">>, Texts)
+        /\ EmitCase(G, Cfg, IF part = "spell" THEN <<"start", "K", "L", "U">> ELSE <<"start">>, Texts)
 
 Next == Step
 
